@@ -100,9 +100,10 @@ func (r *compileRun) one(scope string, a *refsem.Arch, p *seccomp.Policy, o engi
 		r.ctx.Count("partition_inexact_policies", 1)
 	}
 	if out.Prog != nil {
-		h := progHash(out.Prog)
 		r.mu.Lock()
-		r.progs[h] = struct{}{}
+		if len(r.progs) < 3000000 { // distinct programs are counted up to 3 million (memory bound); see distinct_programs_capped
+			r.progs[progHash(out.Prog)] = struct{}{}
+		}
 		if len(out.Decisions) >= 2 {
 			r.nontriv++
 		}
@@ -158,6 +159,9 @@ func (r *compileRun) finish(rule string) {
 	r.ctx.Cov["evaluations"] = r.ctx.Counter("events") + r.ctx.Counter("policies")
 	r.ctx.Cov["distinct_nontrivial"] = r.nontriv
 	r.ctx.Cov["distinct_programs"] = len(r.progs)
+	if len(r.progs) >= 3000000 {
+		r.ctx.Cov["distinct_programs_capped"] = "counting stopped at 3 000 000 distinct programs to bound memory"
+	}
 	r.ctx.Cov["rule"] = rule
 	for k, v := range r.other {
 		r.ctx.Cov[k] = v
